@@ -74,7 +74,7 @@ theorem expPlan_frozen (v : World) (k : Key2) (now : Nat) (e : ExpO) (he : findE
 def ExpGuard (v : World) (e : ExpO) : Call → Prop
   | .trialCreate t' =>
     t'.key.ns = e.key.ns ∧ t'.exp = e.key.name ∧ (∃ s, findSug v e.key = some s ∧ t'.key.name ∈ s.st.names) ∧
-    (∀ t ∈ trialsOf v e.key, t.key.name ≠ t'.key.name) ∧ t'.st = {} ∧ t'.retain = e.cfg.retain
+    (∀ t ∈ trialsOf v e.key, t.key.name ≠ t'.key.name) ∧ t'.st = {} ∧ t'.retain = e.cfg.retain ∧ t'.deleted = false
   | .sugCreate s' => findSug v e.key = none ∧ s'.key = e.key ∧ s'.st = {} ∧ s'.resume = e.cfg.resume ∧ s'.es = e.cfg.es
   | .sugUpdateReq k' rv req => ∃ s, findSug v e.key = some s ∧ k' = e.key ∧ rv = s.rv ∧ req ≠ s.requests
   | .sugStatus k' rv st' =>
@@ -97,7 +97,7 @@ theorem guard_creates (v : World) (e : ExpO) (l : List String) (k : Prog) (hk : 
   | cons a l ih =>
     have ih' := ih (fun x hx => hl x (by simp [hx]))
     obtain ⟨h1, h2⟩ := hl a (by simp)
-    exact ⟨⟨rfl, rfl, h1, h2, rfl, rfl⟩, ih', ih'⟩
+    exact ⟨⟨rfl, rfl, h1, h2, rfl, rfl, rfl⟩, ih', ih'⟩
 
 theorem guard_expCreateTrials (v : World) (e : ExpO) (st : ExpSt) (add : Int) (now : Nat) :
     (expCreateTrials v e st (trialsOf v e.key) add now).All (ExpGuard v e) := by
